@@ -1,1 +1,380 @@
 //! reference model: poly (see DESIGN.md §4 E7)
+//!
+//! Deliberately naive, independent definitions used as oracles by C12 / C14:
+//!   * scalar multiplication by double-and-add over the bits of the scalar, on top of the library's
+//!     *single* point addition and doubling only (those two are checked by C11);
+//!   * naive multi-scalar multiplication  Σ sᵢ·Bᵢ;
+//!   * naive O(n²) discrete Fourier transform over a field / over a group, given ω;
+//!   * schoolbook polynomial add / mul / Horner evaluation / long division / Lagrange
+//!     interpolation / direct Lagrange-basis evaluation.
+//!
+//! Nothing here calls a multi-scalar multiplication, an FFT, a batch inversion, `pow` or a scalar
+//! multiplication of the library.
+
+use ff::{Field, PrimeField};
+use group::Group;
+
+// ---------------------------------------------------------------------------------------------
+// scalars as bit strings
+// ---------------------------------------------------------------------------------------------
+
+/// Little-endian bytes of the canonical integer representative of `s`.
+///
+/// `PrimeField::to_repr` has an implementation-defined endianness; it is determined here from the
+/// representation of 1 (first byte set ⇒ little endian, last byte set ⇒ big endian).
+pub fn le_bytes<F: PrimeField>(s: &F) -> Vec<u8> {
+    let one = F::ONE.to_repr();
+    let one = one.as_ref();
+    let mut v = s.to_repr().as_ref().to_vec();
+    if one[0] == 1 {
+        // little endian
+    } else if one[one.len() - 1] == 1 {
+        v.reverse();
+    } else {
+        panic!("refs::poly::le_bytes: cannot determine the endianness of to_repr");
+    }
+    v
+}
+
+/// Bits of the canonical representative of `s`, least significant first.
+pub fn le_bits<F: PrimeField>(s: &F) -> Vec<bool> {
+    let mut bits = Vec::new();
+    for b in le_bytes(s) {
+        for i in 0..8 {
+            bits.push((b >> i) & 1 == 1);
+        }
+    }
+    bits
+}
+
+/// `s · p` by left-to-right double-and-add (uses `Group::double` and `+` only).
+pub fn scalar_mul<G: Group>(p: &G, s: &G::Scalar) -> G {
+    let mut acc = G::identity();
+    for bit in le_bits(s).into_iter().rev() {
+        acc = acc.double();
+        if bit {
+            acc = acc + *p;
+        }
+    }
+    acc
+}
+
+/// Naive multi-scalar multiplication Σ sᵢ·Bᵢ (term by term, in order).
+pub fn naive_msm<G: Group>(scalars: &[G::Scalar], bases: &[G]) -> G {
+    assert_eq!(scalars.len(), bases.len(), "refs::poly::naive_msm: caller error");
+    let mut acc = G::identity();
+    for (s, b) in scalars.iter().zip(bases.iter()) {
+        acc = acc + scalar_mul(b, s);
+    }
+    acc
+}
+
+/// Σ aᵢ·bᵢ in the field.
+pub fn inner_product<F: Field>(a: &[F], b: &[F]) -> F {
+    assert_eq!(a.len(), b.len());
+    let mut acc = F::ZERO;
+    for (x, y) in a.iter().zip(b.iter()) {
+        acc += *x * *y;
+    }
+    acc
+}
+
+// ---------------------------------------------------------------------------------------------
+// field helpers
+// ---------------------------------------------------------------------------------------------
+
+/// `x^e` by square-and-multiply (own implementation; does not call `Field::pow`).
+pub fn pow_u64<F: Field>(x: F, e: u64) -> F {
+    let mut acc = F::ONE;
+    for i in (0..64).rev() {
+        acc = acc * acc;
+        if (e >> i) & 1 == 1 {
+            acc *= x;
+        }
+    }
+    acc
+}
+
+/// `x^e` for a signed exponent (`x` must be invertible when `e < 0`).
+pub fn pow_i64<F: Field>(x: F, e: i64) -> F {
+    if e >= 0 {
+        pow_u64(x, e as u64)
+    } else {
+        let inv: F = Option::from(x.invert()).expect("refs::poly::pow_i64: zero base");
+        pow_u64(inv, e.unsigned_abs())
+    }
+}
+
+/// The primitive 2^log_n-th root of unity derived from `F::ROOT_OF_UNITY` by repeated squaring.
+pub fn root_of_unity<F: PrimeField>(log_n: u32) -> F {
+    assert!(log_n <= F::S);
+    let mut w = F::ROOT_OF_UNITY;
+    for _ in log_n..F::S {
+        w = w * w;
+    }
+    w
+}
+
+/// `true` iff `w` has multiplicative order exactly `2^log_n`.
+pub fn has_order_pow2<F: Field>(w: F, log_n: u32) -> bool {
+    if log_n == 0 {
+        return w == F::ONE;
+    }
+    let mut t = w;
+    for _ in 0..(log_n - 1) {
+        t = t * t;
+    }
+    t == -F::ONE
+}
+
+// ---------------------------------------------------------------------------------------------
+// naive DFT
+// ---------------------------------------------------------------------------------------------
+
+/// Naive DFT over a field: out[j] = Σᵢ a[i]·ω^{ij}.
+pub fn naive_dft<F: Field>(a: &[F], omega: F) -> Vec<F> {
+    let n = a.len();
+    let mut out = Vec::with_capacity(n);
+    let mut wj = F::ONE; // ω^j
+    for _ in 0..n {
+        // Σ a[i] (ω^j)^i, by explicit powers (not Horner, to stay a literal transcription)
+        let mut acc = F::ZERO;
+        let mut p = F::ONE;
+        for ai in a.iter() {
+            acc += *ai * p;
+            p *= wj;
+        }
+        out.push(acc);
+        wj *= omega;
+    }
+    out
+}
+
+/// Naive DFT over a group with scalars in its scalar field: out[j] = Σᵢ ω^{ij}·a[i].
+pub fn naive_dft_group<G: Group>(a: &[G], omega: G::Scalar) -> Vec<G> {
+    let n = a.len();
+    let mut out = Vec::with_capacity(n);
+    let mut wj = G::Scalar::ONE;
+    for _ in 0..n {
+        let mut acc = G::identity();
+        let mut p = G::Scalar::ONE;
+        for ai in a.iter() {
+            acc = acc + scalar_mul(ai, &p);
+            p *= wj;
+        }
+        out.push(acc);
+        wj *= omega;
+    }
+    out
+}
+
+// ---------------------------------------------------------------------------------------------
+// schoolbook polynomial algebra (coefficient vectors, lowest degree first)
+// ---------------------------------------------------------------------------------------------
+
+/// Removes trailing zero coefficients.
+pub fn trim<F: Field>(mut a: Vec<F>) -> Vec<F> {
+    while let Some(last) = a.last() {
+        if bool::from(last.is_zero()) {
+            a.pop();
+        } else {
+            break;
+        }
+    }
+    a
+}
+
+/// Equality as polynomials (trailing zeros ignored).
+pub fn poly_eq<F: Field>(a: &[F], b: &[F]) -> bool {
+    trim(a.to_vec()) == trim(b.to_vec())
+}
+
+pub fn poly_add<F: Field>(a: &[F], b: &[F]) -> Vec<F> {
+    let n = a.len().max(b.len());
+    let mut out = vec![F::ZERO; n];
+    for (i, x) in a.iter().enumerate() {
+        out[i] += *x;
+    }
+    for (i, x) in b.iter().enumerate() {
+        out[i] += *x;
+    }
+    out
+}
+
+pub fn poly_sub<F: Field>(a: &[F], b: &[F]) -> Vec<F> {
+    let n = a.len().max(b.len());
+    let mut out = vec![F::ZERO; n];
+    for (i, x) in a.iter().enumerate() {
+        out[i] += *x;
+    }
+    for (i, x) in b.iter().enumerate() {
+        out[i] -= *x;
+    }
+    out
+}
+
+pub fn poly_scale<F: Field>(a: &[F], c: F) -> Vec<F> {
+    a.iter().map(|x| *x * c).collect()
+}
+
+/// Schoolbook product.
+pub fn poly_mul<F: Field>(a: &[F], b: &[F]) -> Vec<F> {
+    if a.is_empty() || b.is_empty() {
+        return vec![];
+    }
+    let mut out = vec![F::ZERO; a.len() + b.len() - 1];
+    for (i, x) in a.iter().enumerate() {
+        if bool::from(x.is_zero()) {
+            continue;
+        }
+        for (j, y) in b.iter().enumerate() {
+            out[i + j] += *x * *y;
+        }
+    }
+    out
+}
+
+/// Horner evaluation.
+pub fn poly_eval<F: Field>(a: &[F], x: F) -> F {
+    let mut acc = F::ZERO;
+    for c in a.iter().rev() {
+        acc = acc * x + *c;
+    }
+    acc
+}
+
+/// Evaluation as the literal sum Σ aᵢ xⁱ (second, differently shaped definition used to
+/// cross-check Horner inside the harness).
+pub fn poly_eval_powers<F: Field>(a: &[F], x: F) -> F {
+    let mut acc = F::ZERO;
+    let mut p = F::ONE;
+    for c in a.iter() {
+        acc += *c * p;
+        p *= x;
+    }
+    acc
+}
+
+/// Polynomial long division: returns `(q, r)` with `a = q·d + r`, `deg r < deg d`.
+/// `d` must be non-zero.
+pub fn poly_divrem<F: Field>(a: &[F], d: &[F]) -> (Vec<F>, Vec<F>) {
+    let d = trim(d.to_vec());
+    assert!(!d.is_empty(), "refs::poly::poly_divrem: division by the zero polynomial");
+    let mut r = trim(a.to_vec());
+    let dl = d.len();
+    let lead_inv: F = Option::from(d[dl - 1].invert()).unwrap();
+    if r.len() < dl {
+        return (vec![], r);
+    }
+    let mut q = vec![F::ZERO; r.len() - dl + 1];
+    while r.len() >= dl {
+        let shift = r.len() - dl;
+        let c = r[r.len() - 1] * lead_inv;
+        q[shift] = c;
+        for (i, di) in d.iter().enumerate() {
+            r[shift + i] -= c * *di;
+        }
+        // the leading coefficient is now zero by construction
+        debug_assert!(bool::from(r[r.len() - 1].is_zero()));
+        r.pop();
+        r = trim(r);
+    }
+    (q, r)
+}
+
+/// The vanishing polynomial X^n − 1 as a coefficient vector.
+pub fn vanishing<F: Field>(n: usize) -> Vec<F> {
+    let mut v = vec![F::ZERO; n + 1];
+    v[0] = -F::ONE;
+    v[n] = F::ONE;
+    v
+}
+
+/// Π (X − zᵢ).
+pub fn poly_from_roots<F: Field>(roots: &[F]) -> Vec<F> {
+    let mut p = vec![F::ONE];
+    for z in roots {
+        p = poly_mul(&p, &[-*z, F::ONE]);
+    }
+    p
+}
+
+/// Lagrange interpolation by the textbook formula Σⱼ yⱼ Π_{k≠j} (X − x_k)/(x_j − x_k).
+/// Points must be pairwise distinct. Returns exactly `points.len()` coefficients.
+pub fn lagrange_interpolate<F: Field>(points: &[F], evals: &[F]) -> Vec<F> {
+    assert_eq!(points.len(), evals.len());
+    let n = points.len();
+    let mut out = vec![F::ZERO; n];
+    for j in 0..n {
+        let mut num = vec![F::ONE];
+        let mut den = F::ONE;
+        for k in 0..n {
+            if k == j {
+                continue;
+            }
+            num = poly_mul(&num, &[-points[k], F::ONE]);
+            den *= points[j] - points[k];
+        }
+        let den_inv: F =
+            Option::from(den.invert()).expect("refs::poly::lagrange_interpolate: repeated point");
+        let c = evals[j] * den_inv;
+        for (o, x) in out.iter_mut().zip(num.iter()) {
+            *o += *x * c;
+        }
+    }
+    out
+}
+
+/// Direct evaluation at `x` of the i-th Lagrange basis polynomial of the domain
+/// {ω^0, …, ω^{n−1}}:  L_i(x) = Π_{j≠i} (x − ω^j) / (ω^i − ω^j).
+pub fn lagrange_basis_eval<F: Field>(omega: F, n: usize, i: usize, x: F) -> F {
+    assert!(i < n);
+    let mut pts = Vec::with_capacity(n);
+    let mut w = F::ONE;
+    for _ in 0..n {
+        pts.push(w);
+        w *= omega;
+    }
+    let mut num = F::ONE;
+    let mut den = F::ONE;
+    for j in 0..n {
+        if j == i {
+            continue;
+        }
+        num *= x - pts[j];
+        den *= pts[i] - pts[j];
+    }
+    let den_inv: F = Option::from(den.invert()).unwrap();
+    num * den_inv
+}
+
+/// Index `i` (possibly negative or ≥ n) reduced into `0..n`.
+pub fn wrap_index(i: i64, n: usize) -> usize {
+    i.rem_euclid(n as i64) as usize
+}
+
+#[cfg(test)]
+mod tests {
+    use super::*;
+    use midnight_curves::Fq;
+
+    #[test]
+    fn divrem_roundtrip() {
+        let a: Vec<Fq> = (1..10u64).map(Fq::from).collect();
+        let d: Vec<Fq> = vec![Fq::from(3), Fq::from(0), Fq::from(2)];
+        let (q, r) = poly_divrem(&a, &d);
+        assert!(poly_eq(&poly_add(&poly_mul(&q, &d), &r), &a));
+        assert!(trim(r).len() < 3);
+    }
+
+    #[test]
+    fn interpolate_roundtrip() {
+        let pts: Vec<Fq> = (2..7u64).map(Fq::from).collect();
+        let ev: Vec<Fq> = (10..15u64).map(|x| Fq::from(x * x)).collect();
+        let p = lagrange_interpolate(&pts, &ev);
+        for (x, y) in pts.iter().zip(ev.iter()) {
+            assert_eq!(poly_eval(&p, *x), *y);
+            assert_eq!(poly_eval_powers(&p, *x), *y);
+        }
+    }
+}
